@@ -221,12 +221,10 @@ func (t *callTracer) CaptureAspectExit(joinpoint types.JoinPointRunType, result 
 	// reset join point if we exit
 	last := len(t.callstack) - 1
 	t.callstack[last].joinPoint = types.JoinPointRunType_Unknown
-	for i := range t.callstack[last].JoinPoints {
-		if t.callstack[last].JoinPoints[i].Type == joinpoint {
-			t.callstack[last].JoinPoints[i].GasUsed = t.callstack[last].JoinPoints[i].Gas - result.Gas
-			t.callstack[last].JoinPoints[i].processOutput(result.Ret, result.Err)
-			break
-		}
+	// aspect executions of one call frame do not nest, the one being left is the one entered last
+	if n := len(t.callstack[last].JoinPoints); n > 0 && t.callstack[last].JoinPoints[n-1].Type == joinpoint {
+		t.callstack[last].JoinPoints[n-1].GasUsed = t.callstack[last].JoinPoints[n-1].Gas - result.Gas
+		t.callstack[last].JoinPoints[n-1].processOutput(result.Ret, result.Err)
 	}
 }
 
